@@ -9,11 +9,13 @@ E2: every exported model class with a node mode is solved in node mode and, in e
     explicit expansion that the *Coq model* produced (all original edges ignored, nodes without the
     attribute ignored, constraints / starts / ends expanded by the model): solved status and objective
     must agree, routes must be valid routes of the ORIGINAL graph in original names, weights/slacks
-    lists must have one entry per route."""
+    lists must have one entry per route.
+E1 (LP against LP): for the k-classes the LP that node mode hands to HiGHS is read back and must equal, as
+    sets of columns and rows, the LP of edge mode on the model's expansion."""
 import copy, json, math, os, time
 from fractions import Fraction as F
 import networkx as nx
-import common, gen, gen2, props
+import common, gen, gen2, props, lpdump
 
 LEVEL = "proof"
 EXPLANATION = (
@@ -23,8 +25,8 @@ EXPLANATION = (
     "Proved for all graphs/names: condense(expand p) = p (any names, incl. empty and single-node paths), constraint and element "
     "round trips, injectivity/disjointness of the .0/.1 names, the exact edges_to_ignore list, the edge set of the expansion, the "
     "bijection between routes of G and of expand G with visit counts, and ignore-list membership. Equality of status/objective is "
-    "then definitional (node mode IS edge mode on the expansion) and is sampled by E2 on the explicit expansion built from the "
-    "model's output. Refuted (open finding remove_empty_drops_single_node): get_solution(remove_empty_paths=True) in node mode "
+    "then definitional (node mode IS edge mode on the expansion); it is sampled by E2 on the explicit expansion built from the "
+    "model's output, and for the k-classes the two LPs handed to HiGHS are read back and compared as sets of columns/rows (E1). Refuted (open finding remove_empty_drops_single_node): get_solution(remove_empty_paths=True) in node mode "
     "filters the CONDENSED paths with len > 1 and so drops a route that visits a single node together with its weight.")
 ASSUMPTIONS = [
     "node names are strings over code points 0..255 (one Coq ascii per character)",
@@ -578,6 +580,18 @@ def solve_obs(cls, G, kw, node_mode, want_remove_empty=False):
     return obs
 
 
+def lp_of(m):
+    """canonical LP held by a k-model (columns identified through the add_variables registry; the synthetic
+    source/sink of the internal s-t graph are renamed so that two objects can be compared)"""
+    reg = lpdump.registry_for(m.solver)
+    src, snk = m.G.source, m.G.sink
+    norm = lambda x: "<SRC>" if x == src else ("<SNK>" if x == snk else x)
+    def key(c):
+        pfx, i = reg[c]
+        return (pfx, tuple(norm(y) for y in i) if isinstance(i, tuple) else (norm(i),))
+    return lpdump.dump_impl(m.solver, key)
+
+
 def mfdc_explicit(H, ekw, xstarts, xends):
     """MinFlowDecompCycles rejects additional starts/ends in edge mode; the explicit instance is solved by the
     same minimum search (width lower bound, then increasing k) over kFlowDecompCycles on the model's expansion"""
@@ -663,6 +677,7 @@ def e2_cases(ctx, per_class):
         ign = r2.list(r2.edge)
         fill = (se == "fill") and bool(inst["starts"] or inst["ends"])
         t_case = time.time()
+        lpdump.install(); lpdump.reset()
         nobs = solve_obs(cls, G, kw, True, want_remove_empty=cls in REMOVE_EMPTY)
         # ---- explicit instance from the MODEL's expansion, edge mode
         H = build_explicit(xn, xe)
@@ -701,6 +716,19 @@ def e2_cases(ctx, per_class):
         ctx.dist(f"e2:{cls}:{'solved' if nobs.get('solved') else ('exc' if nobs['exc'] else 'unsolved')}")
         if nobs.get("timeout") or eobs.get("timeout"):
             ctx.count(eng, "skipped_solver_time_limit"); continue
+        lp_diff = None
+        # ---- E1 (LP against LP): node mode must hand HiGHS the same LP as edge mode on the model's expansion
+        mn, me = nobs.get("model"), eobs.get("model")
+        if has_k and mn is not None and me is not None and hasattr(mn, "solver") and hasattr(me, "solver") and type(mn) is type(me):
+            try:
+                d = lpdump.diff(lp_of(mn), lp_of(me))
+            except Exception as e:
+                d = ["could not read the LPs back: " + repr(e)]
+            ctx.count("E1_lp_node_vs_expansion", "cases")
+            if d:
+                ctx.count("E1_lp_node_vs_expansion", "differences"); lp_diff = d[:8]
+            else:
+                ctx.count("E1_lp_node_vs_expansion", "equal")
         issues = e2_compare(cls, G, inst, nobs, eobs)
         if issues == ["both_raise"]:
             ctx.count(eng, "both_modes_raise_same_exception"); ctx.dist("e2:both_raise:" + nobs["exc"].split(":")[0])
@@ -711,6 +739,9 @@ def e2_cases(ctx, per_class):
                 ctx.report(f"{cls} node mode vs explicit expansion: {what}", info, key=key, concrete=True)
         else:
             ctx.count(eng, "agreements")
+        if lp_diff and not any(v["concrete"] for v in ctx.violations):
+            ctx.report(f"E1 correspondence broken: {cls} in node mode hands HiGHS a different LP than edge mode on the model's expansion: " + "; ".join(lp_diff[:3]),
+                       {**info, "lp_diff": lp_diff}, concrete=False)
 
 
 def close(a, b, tol=1e-6):
@@ -792,7 +823,7 @@ def run(ctx):
                 "E2 case = one model class solved in node mode and on the model's explicit expansion; distinct by request text")
     e3_cases(ctx, ctx.budget(400, 6000), "plain", False)
     e3_cases(ctx, ctx.budget(250, 3000), "adversarial", True)
-    e2_cases(ctx, ctx.budget(int(os.environ.get("C11_E2_PER_CLASS", "30")), 150))
+    e2_cases(ctx, ctx.budget(int(os.environ.get("C11_E2_PER_CLASS", "30")), 600))
 
 
 # ----------------------------------------------------------------------------- replay
